@@ -152,9 +152,12 @@ class _Return(Exception):
 class VecEval:
     MAX_STEPS = 400
 
-    def __init__(self, env: dict):
+    def __init__(self, env: dict, opaque_calls=(), identity_calls=()):
         self.env = {k: _lift(v) for k, v in env.items()}
         self.steps = 0
+        self.yields = []
+        self.opaque_calls = tuple(opaque_calls)      # constructors of the package: the value is the tuple of the folded arguments
+        self.identity_calls = tuple(identity_calls)  # converters that keep the value (tuple of floats of a vector ...)
 
     # ------------------------------------------------------------------ statements
     def run(self, body):
@@ -174,6 +177,9 @@ class VecEval:
             raise Unsupported("too many steps")
         if isinstance(s, ast.Expr):
             if isinstance(s.value, ast.Constant):
+                return
+            if isinstance(s.value, ast.Yield):
+                self.yields.append(self.ev(s.value.value) if s.value.value is not None else None)
                 return
             self.ev(s.value)
         elif isinstance(s, ast.Return):
@@ -284,21 +290,17 @@ class VecEval:
                 return dot(a, b)
             return _bin(e.op, a, b)
         if isinstance(e, ast.BoolOp):
-            if isinstance(e.op, ast.And):
-                r = True
-                for x in e.values:
-                    r = self.ev(x)
-                    if isinstance(r, tuple):
-                        raise Unsupported("and on arrays")
-                    if not r:
-                        return r
-                return r
-            r = False
-            for x in e.values:
+            is_and = isinstance(e.op, ast.And)
+            r = None
+            for i, x in enumerate(e.values):
                 r = self.ev(x)
-                if isinstance(r, tuple):
-                    raise Unsupported("or on arrays")
-                if r:
+                if i == len(e.values) - 1:
+                    return r  # the last operand is the value, its truth is not asked for
+                if isinstance(r, tuple) and not isinstance(r, UnitOf):
+                    raise Unsupported("truth value of an array")
+                if is_and and not r:
+                    return r
+                if not is_and and r:
                     return r
             return r
         if isinstance(e, ast.Compare):
@@ -338,6 +340,9 @@ class VecEval:
                 return tuple(base[int(k)] for k in i)
             raise Unsupported("subscript")
         if isinstance(e, ast.Attribute):
+            dn = dotted(e)
+            if dn is not None and dn in self.env:
+                return self.env[dn]
             if e.attr == "T":
                 v = self.ev(e.value)
                 if is_vec(v):
@@ -359,6 +364,10 @@ class VecEval:
         if "random" in fn or last in ("rand", "randn", "default_rng", "normal", "uniform", "standard_normal"):
             raise Randomised(fn)
         kw = {k.arg: k.value for k in e.keywords if k.arg}
+        if last in self.identity_calls and len(e.args) == 1:
+            return self.ev(e.args[0])
+        if last in self.opaque_calls:
+            return ("__obj__", last) + tuple(self.ev(a) for a in e.args)
         # methods on a value: v.copy(), v.astype(..), v.dot(w), v.argmin() ...
         recv = None
         if isinstance(e.func, ast.Attribute) and not fn.startswith(("np.", "numpy.", "math.")):
@@ -382,6 +391,10 @@ class VecEval:
             raise Unsupported("int")
         if last == "item" and isinstance(a0, Fraction):
             return a0
+        if last in ("ceil", "floor", "trunc", "rint", "round", "around", "fix") and isinstance(a0, (Fraction, tuple)):
+            import math
+            f = {"ceil": math.ceil, "floor": math.floor, "trunc": math.trunc, "fix": math.trunc}.get(last, lambda x: round(x))
+            return tuple(Fraction(f(x)) for x in a0) if isinstance(a0, tuple) else Fraction(f(a0))
         if last in ("zeros", "ones", "empty"):
             n = a0
             if isinstance(n, tuple) and len(n) == 1:
